@@ -48,6 +48,7 @@ type DiffCase struct {
 	Orig   string
 	New    string
 	Expect string
+	Decls  string // top-level declarations the case needs (generic functions)
 	Inputs []Input
 	Tag    interface{} // carried through to the report
 }
@@ -132,6 +133,11 @@ type myInts []int
 type myMap map[int]string
 type myArr [3]int
 
+// a pointer type that implements error: a nil *myE stored in an error interface is a non-nil error
+type myE struct{}
+
+func (*myE) Error() string { return "myE" }
+
 type myErr struct{}
 
 func (myErr) Error() string { return "e" }
@@ -143,9 +149,17 @@ func fmf() myF { note("fmf"); v := pf(cur.FV[cnt%len(cur.FV)]); cnt++; return my
 
 type wr struct {
 	err error
-	buf []int
-	g   myF
+	buf   []int
+	g     myF
+	avail int
 }
+
+// conjuncts that return true and change what a neighbouring comparison reads
+func (w *wr) refill() bool { w.avail = 9; return true }
+
+var gn int
+
+func bumpG() bool { gn = 9; return true }
 
 func (w *wr) flush() { w.err = myErr{}; w.buf = []int{1} }
 func (w *wr) peek() int { return len(w.buf) }
@@ -173,6 +187,28 @@ type obj struct {
 var gf func(int) int = hi
 
 func hj(x int) int { note(fmt.Sprint("hj ", x)); return x * 3 }
+
+// a variadic function that is sensitive to the order of its arguments, a slice reversal, a linked list
+func vsum(xs ...int) int {
+	r := 0
+	for i, x := range xs {
+		r += (i + 1) * x
+	}
+	return r
+}
+
+func rev(xs []int) []int {
+	out := make([]int, len(xs))
+	for i, x := range xs {
+		out[len(xs)-1-i] = x
+	}
+	return out
+}
+
+type node struct {
+	v    int
+	next *node
+}
 
 func setG() { gxs = []int{1} }
 
@@ -247,9 +283,9 @@ func main() {
 
 const unpack = "a, b, c, u, v, p, q, s, t, k, l, xs, bs, tm := i.A, i.B, i.C, i.U, i.V, pf(i.P), pf(i.Q), i.S, i.T, i.K, i.L, i.XS, []byte(i.BS), time.Unix(0, i.TM).UTC()\n" +
 	"\t_, _, _, _, _, _, _, _, _, _, _, _, _, _ = a, b, c, u, v, p, q, s, t, k, l, xs, bs, tm\n" +
-	"\tms, mi, mm, ma := myStr(s), myInts(xs), myMap{0: s, 1: t}, myArr{a, b, c}\n\tpa, w := &ma, &wr{}\n\tgxs, gf = nil, hi\n" +
+	"\tms, mi, mm, ma := myStr(s), myInts(xs), myMap{0: s, 1: t}, myArr{a, b, c}\n\tpa, w := &ma, &wr{}\n\tgxs, gf, gn = nil, hi, 0\n" +
 	"\tmf, mg, mc, mc2 := myF(p), myF(q), myC(complex(p, q)), myC(complex(q, p))\n\tfa := [2]myF{mf, mg}\n\tw.g = mg\n" +
-	"\tvv, it := val{a}, &iter{}\n" +
+	"\tvv, it := val{a}, &iter{}\n\tvar pe *myE\n\tif k {\n\t\tpe = &myE{}\n\t}\n\t_ = pe\n" +
 	"\t_, _, _, _, _, _, _, _, _, _, _, _, _ = ms, mi, mm, ma, pa, w, mf, mg, mc, mc2, fa, vv, it\n"
 
 func caseFunc(kind, body string) string {
@@ -269,6 +305,13 @@ func RunDiff(workDir string, cases []*DiffCase) ([]Mismatch, int, error) {
 	var b strings.Builder
 	b.WriteString(diffPrelude)
 	b.WriteString(FmtCatalogue())
+	seenDecl := map[string]bool{}
+	for _, c := range cases {
+		if c.Decls != "" && !seenDecl[c.Decls] {
+			seenDecl[c.Decls] = true
+			b.WriteString("\n" + c.Decls + "\n")
+		}
+	}
 	b.WriteString("\nvar fns = map[int][2]func(in) interface{}{\n")
 	type spec struct {
 		ID     int     `json:"id"`
@@ -355,6 +398,9 @@ func Grid(r *rand.Rand, text string, max int) []Input {
 	}
 	if used["mi"] {
 		used["xs"] = true
+	}
+	if used["pe"] {
+		used["k"] = true
 	}
 	if used["vv"] || used["val"] {
 		used["a"] = true
